@@ -8,6 +8,8 @@ CONSTANTS
   SrvMayClose = TRUE
   Reactions <- SomeReactions
   HandlerReconnect = FALSE
+  SrvMayStall = TRUE
+  ShutdownBoth = TRUE
   Fixed = TRUE
   Emit = FALSE
 INVARIANT AtMostOneInIo
